@@ -140,33 +140,28 @@ func (rm *RegistrationManager) ingestRegistration(reg *DecoyRegistration) {
 		return
 	}
 
-	if rm.RegistrationExists(reg) {
+	// Check for and track the received registration in one step. Doing the check and the tracking
+	// separately lets two workers holding the same registration both take the "new" path, after
+	// which the checks passed by one of them validate the object (covert address) of the other.
+	// If it is already tracked this just updates the record.
+	exists, err := rm.TrackRegIfNotExists(reg)
+	if err != nil {
+		logger.Errorln("error tracking registration: ", err)
+		Stat().AddErrReg()
+		rm.AddErrReg()
+		return
+	}
+
+	if exists {
 		// log phantom IP, shared secret, ipv6 support
 		logger.Debugf("Duplicate registration: %v %s\n", reg.IDString(), reg.RegistrationSource)
 		Stat().AddDupReg()
 		rm.AddDupReg()
-
-		// Track the received registration, if it is already tracked
-		// it will just update the record
-		err := rm.TrackRegistration(reg)
-		if err != nil {
-			logger.Errorln("error tracking registration: ", err)
-			Stat().AddErrReg()
-			rm.AddErrReg()
-		}
 		return
 	}
 
 	// log phantom IP, shared secret, ipv6 support
 	logger.Debugf("New registration: %s %v\n", reg.IDString(), reg.String())
-
-	// Track the received registration
-	err := rm.TrackRegistration(reg)
-	if err != nil {
-		logger.Errorln("error tracking registration: ", err)
-		Stat().AddErrReg()
-		rm.AddErrReg()
-	}
 
 	// If registration is trying to connect to a covert address that
 	// is blocklisted consider registration INVALID and continue
